@@ -44,8 +44,10 @@ pub enum Op {
     Extend,       // extend_with_edges with an endpoint possibly beyond the current nodes
     ExtendFar,    // extend_with_edges naming the last valid id / the `end()` sentinel of a u8-indexed graph
     CloneConvert, // clone; Graph <-> StableGraph conversion and back
+    Map,          // map() with index-recording closures: keeps every index
 }
-pub const ALL_OPS: [Op; 13] = [
+pub const ALL_OPS: [Op; 14] = [
+    Op::Map,
     Op::ExtendFar,
     Op::AddNode, Op::AddEdge, Op::UpdateEdge, Op::RemoveEdge, Op::RemoveNode, Op::Reverse, Op::ClearEdges, Op::RetainNodes, Op::RetainEdges, Op::FilterMap, Op::Extend, Op::CloneConvert,
 ];
@@ -94,7 +96,8 @@ macro_rules! graph_history {
             m.born.push((stamp, m.born.len() as u32));
         }
         'steps: for (i, op) in ops.iter().enumerate() {
-            let nb = m.nodes.iter().map(|n| n.0 + 1).max().unwrap_or(0);
+            // arguments range over the first indices and one beyond (the 255-node graphs of ExtendFar are probed at the low end)
+            let nb = m.nodes.iter().map(|n| n.0 + 1).max().unwrap_or(0).min(6);
             let eb = m.edges.iter().map(|e| e.0 + 1).max().unwrap_or(0);
             match *op {
                 Op::AddNode => {
@@ -377,6 +380,31 @@ macro_rules! graph_history {
                         }
                     }
                 }
+                Op::Map => {
+                    // documented: the resulting graph has the same structure and the same indices
+                    let mut seen_n: Vec<(usize, u16)> = vec![];
+                    let mut seen_e: Vec<(usize, u8)> = vec![];
+                    let g2 = g.map(
+                        |ix, w| {
+                            seen_n.push((ix.index(), *w));
+                            *w
+                        },
+                        |ix, w| {
+                            seen_e.push((ix.index(), *w));
+                            *w
+                        },
+                    );
+                    seen_n.sort();
+                    seen_e.sort();
+                    let mut wn = m.nodes.clone();
+                    wn.sort();
+                    let mut we: Vec<(usize, u8)> = m.edges.iter().map(|e| (e.0, e.3)).collect();
+                    we.sort();
+                    if seen_n != wn || seen_e != we {
+                        bad.push(format!("step {}: map() showed its closures nodes {:?} edges {:?}, expected {:?} {:?}", i, seen_n, seen_e, wn, we));
+                    }
+                    g = g2;
+                }
                 Op::CloneConvert => {
                     g = convert_roundtrip(g.clone());
                     // conversions compact the indices of a StableGraph with vacancies: re-read by tag/stamp
@@ -522,6 +550,37 @@ macro_rules! graph_history {
                 wx.sort();
                 if ex != wx {
                     bad.push(format!("step {}: externals({:?}) = {:?}, expected {:?}", i, dir, ex, wx));
+                }
+            }
+            // index_twice_mut on every (node, edge) pair
+            for n in m.nodes.iter() {
+                for e in m.edges.iter() {
+                    let (wn, we) = g.index_twice_mut(NodeIndex::new(n.0), EdgeIndex::new(e.0));
+                    if (*wn, *we) != (n.1, e.3) {
+                        bad.push(format!("step {}: index_twice_mut({}, {}) = ({}, {})", i, n.0, e.0, wn, we));
+                    }
+                }
+            }
+            // from_edges on the model's edge list describes the same edges, with nodes 0..=largest endpoint
+            {
+                let mut list: Vec<(usize, usize, u8)> = m.edges.iter().map(|e| (e.1, e.2, e.3)).collect();
+                list.sort_by_key(|e| e.2);
+                if list.iter().all(|e| e.0.max(e.1) < ix_cap) {
+                    let h: $G<u16, u8, $Ty, $Ix> = $G::from_edges(list.iter().map(|e| (NodeIndex::<$Ix>::new(e.0), NodeIndex::<$Ix>::new(e.1), e.2)));
+                    let got: Vec<(usize, usize, usize, u8)> = h.edge_references().map(|r| (r.id().index(), r.source().index(), r.target().index(), *r.weight())).collect();
+                    let want: Vec<(usize, usize, usize, u8)> = list.iter().enumerate().map(|(k, e)| (k, e.0, e.1, e.2)).collect();
+                    let nn = if stable {
+                        // StableGraph creates exactly the named nodes
+                        let mut named: Vec<usize> = list.iter().flat_map(|e| [e.0, e.1]).collect();
+                        named.sort();
+                        named.dedup();
+                        named.len()
+                    } else {
+                        list.iter().map(|e| e.0.max(e.1) + 1).max().unwrap_or(0)
+                    };
+                    if got != want || h.node_count() != nn {
+                        bad.push(format!("step {}: from_edges({:?}) has edges {:?} and {} nodes, expected {:?} and {} nodes", i, list, got, h.node_count(), want, nn));
+                    }
                 }
             }
             // detached walker agrees with the iterator
